@@ -3,7 +3,7 @@
    collectors: legal names, one help and one type per family, no _sum/_count/_bucket collisions,
    legal and unique label names, no duplicate series.  The text encode -> parse round trip is
    executed by the harness on every scrape (not modelled). *)
-From SE Require Import Spec.PipelineSpec Proofs.PipelineProofs.
+From SE Require Import Spec.PipelineSpec Spec.ExpositionSpec Proofs.PipelineProofs Proofs.ExpositionProofs.
 
 (* After ANY history, with any sound mapping cache, every scrape succeeds - provided the binary's
    own collectors are consistent and no exposed series uses one of their names (known finding
@@ -12,6 +12,26 @@ Theorem C03_scrape_ok : forall pf uni_word re_match heur_bt re_compiles CS c_get
   stmt_scrape_ok pf uni_word re_match heur_bt re_compiles CS c_get c_add c_reset builtins.
 Proof. intros. unfold stmt_scrape_ok. intros. eapply scrape_ok_ok; eauto. Qed.
 Print Assumptions C03_scrape_ok.
+
+(* What "succeeds" means, in the words of the property.  For every collected set on which gather_ok
+   holds (hence, by C03_scrape_ok, for every scrape after every history):
+   every metric and label name is legal and no label name occurs twice in a series ... *)
+Theorem C03_names_legal : stmt_gather_ok_names_legal.
+Proof. exact gather_ok_names_legal_ok. Qed.
+Print Assumptions C03_names_legal.
+(* ... each family has one help string and one type ... *)
+Theorem C03_one_help_one_type_per_family : stmt_gather_ok_one_help_one_type.
+Proof. exact gather_ok_one_help_one_type_ok. Qed.
+Print Assumptions C03_one_help_one_type_per_family.
+(* ... no two series share a name and a label set ... *)
+Theorem C03_series_distinct : stmt_gather_ok_series_distinct.
+Proof. exact gather_ok_series_distinct_ok. Qed.
+Print Assumptions C03_series_distinct.
+(* ... and a histogram / summary family is never exposed next to a family named like one of its own
+   exposition lines (X_count, X_sum, X_bucket) *)
+Theorem C03_no_companion_clash : stmt_gather_ok_no_companion_clash.
+Proof. exact gather_ok_no_companion_clash_ok. Qed.
+Print Assumptions C03_no_companion_clash.
 
 (* the premise is satisfiable: without built-in collectors it is vacuous *)
 Example C03_no_builtins : gather_ok [] = true.
